@@ -6,7 +6,7 @@ CONSTANTS
   NApps = 2
   MaxRoutes = 1
   MaxDepth = 1
-  MSETS = "small"
+  MSETS = "one"
   PSIB = TRUE
   NPOL = 1
   RICHPOL = FALSE
